@@ -89,6 +89,17 @@ def spoken_items():
         for t, delta in SPOKEN:
             tot = (n * 60 + delta) % 1440
             out.append(("spoken-digit:" + t, t.format(H=n), tot // 60, tot % 60, {"spoken"}))
+    # spoken quarter/half forms + part of day ("quarter to one in the afternoon" = 12:45)
+    for n in range(1, 12):
+        for t, delta in SPOKEN[:3] + SPOKEN[5:8] + SPOKEN[11:15]:
+            german_tpl = t.startswith("viertel") or t.startswith("halb")
+            tot = (n * 60 + delta) % 1440
+            for pod in (POD_PM[:7] if n % 2 else POD_PM[:3]):
+                if (pod in GERMAN_PODS) != german_tpl:
+                    continue
+                nm = (NAMED_DE if german_tpl else NAMED_EN)[n - 1]
+                h = tot // 60
+                out.append(("spoken-in-pod", t.format(H=nm) + " " + pod, h + 12 if h < 12 else h, tot % 60, {"spoken"}))
     # <hour> in the <part of day>, unambiguous hour forms only
     for n in range(1, 12):
         for pod in POD_PM:
@@ -146,6 +157,19 @@ def check_off(text, h, mi):
     return None
 
 
+def check_off_at(text, h, mi, ref):
+    """latent off at the SAME reference time right after a latent-on call of the same text"""
+    try:
+        got = norm(O.bestval(text, ref, latent_time=False))
+    except Exception as e:
+        return ("parse-raises(see C01):" + type(e).__name__, repr(e))
+    exp = O.T(hour=h, minute=mi)
+    if got != exp:
+        return ("latent-off-after-latent-on:not-a-pure-clock-time", "{!r} at {} with latent_time=False (after a latent_time=True call) -> {} expected {}".format(
+            text, ref.isoformat(), O.vstr(got), O.vstr(exp)))
+    return None
+
+
 def check_on(text, h, mi, ref):
     try:
         got = norm(O.bestval(text, ref, latent_time=True))
@@ -196,6 +220,33 @@ def _off_shard(arg):
     return acc
 
 
+def _military_pm_shard(arg):
+    """four-digit time with an am/pm marker ('0820 pm' = 20:20) under reference years that equal the 24h reading"""
+    pid, refs = arg
+    acc = core.Acc(pid)
+    for ref in refs:
+        years = {ref.year, (ref.year + 1) if ref.month > 9 else ref.year}
+        for h in range(0, 24):
+            for mi in range(0, 60, 5):
+                h12 = h % 12 or 12
+                written = h12 * 100 + mi
+                if written in years:
+                    continue
+                for tpl in ("{:02d}{:02d} {}", "{:02d}{:02d}{}"):
+                    text = tpl.format(h12, mi, "am" if h < 12 else "pm")
+                    try:
+                        got = norm(O.bestval(text, ref, latent_time=False))
+                    except Exception as e:
+                        acc.fail("military|parse-raises(see C01)", {"text": text, "h": h, "mi": mi, "latent": False, "ts": ref.isoformat()}, repr(e))
+                        continue
+                    acc.case(("milpm", text, ref.year), nontrivial=(h * 100 + mi) in years, cls=["latent-off", "military+ampm"],
+                             sample={"text": text, "ts": ref.isoformat(), "latent_time": False})
+                    if got != O.T(hour=h, minute=mi):
+                        acc.fail("military+ampm|wrong-or-missing", {"text": text, "h": h, "mi": mi, "latent": False, "ts": ref.isoformat()},
+                                 "{!r} at {} -> {} expected {:02d}:{:02d}".format(text, ref.isoformat(), O.vstr(got), h, mi))
+    return acc
+
+
 def _spoken_shard(arg):
     pid, part = arg
     acc = core.Acc(pid)
@@ -221,6 +272,10 @@ def _on_shard(arg):
         for j, ref in enumerate(refs_for(h, mi)):
             nid, text, eh, emi, flags = its[(k + j) % len(its)]
             r = check_on(text, eh, emi, ref)
+            if not r and j % 3 == 0:
+                r = check_off_at(text, eh, emi, ref)
+                if not r:
+                    r = check_on(text, eh, emi, ref)
             nextday = not (eh * 60 + emi > ref.hour * 60 + ref.minute)
             acc.case((nid, h, mi, ref), nontrivial=nextday, cls=["latent-on", "answer-next-day" if nextday else "answer-same-day"],
                      sample={"text": text, "ts": ref.isoformat()})
@@ -233,6 +288,8 @@ def run(ctx):
     minutes = [(h, mi) for h in range(24) for mi in range(60)]
     acc = core.pmap_acc(ctx.pid, _off_shard, [(ctx.pid, p) for p in core.chunks(minutes, 48)])
     acc.merge(core.pmap_acc(ctx.pid, _spoken_shard, [(ctx.pid, p) for p in core.chunks(spoken_items(), 32)]))
+    mrefs = [dt.datetime(2020, 6, 16, 9, 41), dt.datetime(2025, 3, 1, 9, 41), dt.datetime(2019, 11, 5, 9, 41), dt.datetime(2021, 6, 16, 9, 41)]
+    acc.merge(core.pmap_acc(ctx.pid, _military_pm_shard, [(ctx.pid, [r]) for r in mrefs]))
     step = 1 if ctx.thorough else 7
     sel = [m for i, m in enumerate(minutes) if i % step == ctx.seed % step]
     acc.merge(core.pmap_acc(ctx.pid, _on_shard, [(ctx.pid, p) for p in core.chunks(sel, 48)]))
@@ -246,5 +303,9 @@ def run(ctx):
 
 def replay(case):
     if case["latent"]:
-        return check_on(case["text"], case["h"], case["mi"], core.parse_ts(case["ts"]))
+        ref = core.parse_ts(case["ts"])
+        return check_on(case["text"], case["h"], case["mi"], ref) or check_off_at(case["text"], case["h"], case["mi"], ref)
+    if case.get("ts"):
+        got = norm(O.bestval(case["text"], core.parse_ts(case["ts"]), latent_time=False))
+        return None if got == O.T(hour=case["h"], minute=case["mi"]) else ("military+ampm|wrong-or-missing", O.vstr(got))
     return check_off(case["text"], case["h"], case["mi"])
